@@ -10,7 +10,7 @@ from valjean.cosette.depgraph import DepGraph
 from . import runtime
 
 _MODS = None
-OUTCOMES = ('ok', 'raise', 'fail', 'none', 'notpair', 'badstatus', 'badupdate', 'triple', 'clobber', 'clobber-next', 'badnested', 'nonfinal', 'pending')
+OUTCOMES = ('ok', 'raise', 'fail', 'none', 'notpair', 'badstatus', 'badupdate', 'triple', 'clobber', 'clobber-next', 'badnested', 'nonfinal', 'pending', 'emptyupdate')
 FINAL = (TaskStatus.DONE, TaskStatus.FAILED, TaskStatus.SKIPPED)
 
 
@@ -69,6 +69,8 @@ class Probe(Task):
         if out in ('nonfinal', 'pending'):
             # a genuine TaskStatus, but not one a finished task can have
             return upd, (TaskStatus.WAITING if out == 'nonfinal' else TaskStatus.PENDING)
+        if out == 'emptyupdate':
+            return [], TaskStatus.DONE          # not a mapping either, but falsy
         if out == 'badnested':
             # a mapping all the way down, but it asks to merge a dictionary into a value that is not one (the start clock):
             # apply() fails half-way
